@@ -221,7 +221,10 @@ def lrelResp (r : Lossy.Relation) : String :=
   let printed := Lossy.showRelation r
   let ll := Build.toLossless r
   let bk := match Build.toLossy ll with | .ok x => "ok " ++ encLossyRel x | .panic _ => "PANIC"
-  s!"P:{encStr printed} RT:{showLossyRel (Lossy.readRelation printed)} LL:{showTree ll} BK:{bk} LV:{losslessView printed false} valid={encBool (RelSpec.validRS r)}"
+  -- F-C14-3: an EMPTY architecture list (what both readers return for `a []`) does not survive the
+  -- conversion to the lossless form (`set_architectures([])` is a no-op): `a []` becomes `a` / `None`
+  let trig := if r.architectures == some [] then "\t!F-C14-3" else ""
+  s!"P:{encStr printed} RT:{showLossyRel (Lossy.readRelation printed)} LL:{showTree ll} BK:{bk} LV:{losslessView printed false} valid={encBool (RelSpec.validRS r)}" ++ trig
 
 def handle (op : String) (args : List String) : Option String :=
   match op, args with
@@ -260,7 +263,8 @@ def handle (op : String) (args : List String) : Option String :=
     let eb := ";".intercalate (ents.map fun e => match Build.entryToLossy e with
       | .ok xs => "ok {" ++ "|".intercalate (xs.map encLossyRel) ++ "}"
       | .panic _ => "PANIC")
-    pure s!"P:{encStr printed} RT:{lossyView printed} LV:{losslessView printed false} EN:{en} EB:{eb} RS:{showTree (Build.relationsFromEntries ents)} valid={encBool (RelSpec.validRSs rs)}"
+    let trig := if rs.any (fun e => e.any fun r => r.architectures == some []) then "\t!F-C14-3" else ""
+    pure (s!"P:{encStr printed} RT:{lossyView printed} LV:{losslessView printed false} EN:{en} EB:{eb} RS:{showTree (Build.relationsFromEntries ents)} valid={encBool (RelSpec.validRSs rs)}" ++ trig)
   | "rel.mut", name :: ver :: ops => do
     let nm ← decStr name
     let v ← if ver == "none" then some none else
